@@ -73,6 +73,58 @@ PENDING = {
     "C20": "machinery under construction (Runtime spec); not claimed yet",
 }
 
+CHECKS.update({
+    "C01": dict(level="translation_validation", design="§6 C01",
+                text="For generated well-typed Fun programs and argument tuples the source semantics (spec/FunMachine.tla) composed with "
+                     "the runtime contract (spec/Runtime.tla) predicts stdout bytes and exit status inside TLC; the observation is a real "
+                     "process built from the real pipeline's x86-64 text with GNU as, the repository's C driver and io.c.",
+                note="NASM->GAS transliteration touches only syntax; effects in argument positions are not generated (their order is not "
+                     "fixed by the statement).",
+                technique="TLA+ source machine + runtime contract evaluated by TLC against recorded native executions"),
+    "C02": dict(level="translation_validation", design="§6 C02",
+                text="Fun machine vs Core machine on compile_prog's real output for every (program, input), plus the all-paths typing "
+                     "walk of the Core output; heavy name reuse with alpha-renamed twins to separate name capture from other defects.",
+                note="Semantics fixed in DESIGN Appendix A.1/A.2; effects only in sequenced positions.",
+                technique="TLA+ observational-equivalence product (spec/Equiv.tla) + reachability walker (spec/CoreTyping.tla), TLC"),
+    "C03": dict(level="translation_validation", design="§6 C03",
+                text="Core machine with dynamic focusing on the unfocused program vs the same machine on the uniquified and the focused "
+                     "program (effects in every argument position); walker in mode unique checks distinct binders along every path, "
+                     "ids non-zero and <= max_id.",
+                note="Hypothesis (well-typed Core input) is checked by the walker; failing inputs are blamed on C02.",
+                technique="TLA+ observational-equivalence product + reachability walker, TLC"),
+    "C04": dict(level="translation_validation", design="§6 C04",
+                text="Core machine on the focused program vs AxCut machine (named mode) on shrink_prog's real output; AxCut typing walk "
+                     "(chirality collapse, clause order, lifted definitions).",
+                note="Hypothesis (well-typed focused Core) checked by the walker.",
+                technique="TLA+ observational-equivalence product + reachability walker, TLC"),
+    "C05": dict(level="model_checking", design="§6 C05",
+                text="All-paths walk of the linearised program with the ordered, linear discipline (ContextExact per statement kind) - "
+                     "exhaustive per program - and AxCut machine named mode vs positional mode observationally.",
+                note="Program space sampled (pipeline outputs and directly generated non-linear AxCut).",
+                technique="TLA+ reachability walker (spec/AxCutTyping.tla, mode linear) + equivalence product, TLC"),
+    "C12": dict(level="model_checking", design="§6 C12",
+                text="Stage-event traces of every generated and capacity-boundary program validated by spec/TracePipeline.tla (panic is in "
+                     "no outcome alphabet, capacity only beyond the documented limits); typing walkers on Core, uniquified, focused "
+                     "Core, AxCut and linear AxCut artifacts of every accepted program.",
+                note="Capacity predicates are the documented limits as written in spec/PipelineDefs.tla.",
+                technique="TLA+ trace validation + reachability walkers, TLC"),
+    "C17": dict(level="model_checking", design="§6 C17",
+                text="TLC enumerates all request histories (length 3 quick / 4 thorough) of the abstract Driver model spec/Pipeline.tla; the "
+                     "harness replays each on a fresh real Driver, samples in further processes (fresh hash seeds); spec/TracePipeline.tla "
+                     "checks Functional: every content hash equals the reference (assembly modulo label renaming).",
+                note="2 sources (one with 11 type instances), 8 printable stages.",
+                technique="TLA+ model enumeration replayed into the implementation + trace validation, TLC"),
+    "C20": dict(level="model_checking", design="§6 C20",
+                text="io.c's print primitives called stand-alone on boundary/power/random i64 values, native one-liners with 0..5 "
+                     "parameters and random boundary tuples, wrong argument counts - all judged inside TLC by spec/Runtime.tla "
+                     "(RenderCall, ExitStatus, ArityMessage); argument shuffle of into_routine on the A64 (0..7) and X86 (0..5) machines.",
+                note="Trailing NUL byte of the arity message is tolerated (reported in evidence).",
+                technique="TLA+ runtime contract evaluated by TLC on recorded observations + ISA machine for the shuffle"),
+})
+for k in list(PENDING):
+    if k in CHECKS:
+        del PENDING[k]
+
 
 def main():
     commits = subprocess.run(["git", "-C", "/repo", "log", "--format=%h %s"], stdout=subprocess.PIPE, text=True).stdout.splitlines()
